@@ -94,6 +94,7 @@ static ld residual(Dense const& A, Dense const& X, Dense const& B){
 		ld s = -(ld)B(i, j);
 		for(std::size_t k = 0; k != A.c; ++k) s += (ld)A(i, k) * (ld)X(k, j);
 		s = std::fabs(s);
+		if(s != s) return s;            // NaN is sticky
 		if(!(s <= m)) m = s;
 	}
 	return m;
@@ -108,7 +109,12 @@ static Dense matmul(Dense const& A, Dense const& B){
 }
 static const ld RTOL = 1e-9L;
 // backward-error form of "residual at rounding level": |A X - B| <= RTOL (|A| |X| + |B|)
+static bool allFinite(Dense const& a){
+	for(std::size_t k = 0; k != a.a.size(); ++k) if(!std::isfinite(a.a[k])) return false;
+	return true;
+}
 static bool residualOk(Dense const& A, Dense const& X, Dense const& B, ld extra = 1){
+	if(!allFinite(X)) return false;     // a NaN anywhere in the result fails (the running maxima below would lose it)
 	ld res = residual(A, X, B);
 	ld bound = RTOL * extra * (normInf(A) * maxAbs(X) + maxAbs(B));
 	return res <= bound;
@@ -258,7 +264,7 @@ std::string runPstrf(Dense const& A){
 	ld err = 0; for(std::size_t k = 0; k != PA.a.size(); ++k){ ld e = std::fabs((ld)PA.a[k] - (ld)FFt.a[k]); if(!(e <= err)) err = e; }
 	ld scale = maxAbs(A);
 	// discarded remainder is below n^2 eps max_diag; allow 1e-9 relative on top
-	if(!(err <= (RTOL + (ld)A.r * A.r * 2.3e-16L) * (ld)A.r * scale)) out += " !oracle pstrf-PAPt";
+	if(!(err <= (RTOL + (ld)A.r * A.r * 2.3e-16L) * (ld)A.r * scale) || !allFinite(R)) out += " !oracle pstrf-PAPt";
 	for(std::size_t i = 0; i != R.r; ++i) for(std::size_t j = 0; j != R.c; ++j){
 		bool strictOther = Tri::is_upper ? (j < i) : (j > i);
 		bool beyondRank = Tri::is_upper ? (i >= rank) : (j >= rank);
@@ -565,7 +571,7 @@ std::string serveRequests(Dec const& dec, Dense const& A, std::vector<Req> const
 			Dense Z(R.r, R.c);
 			ld res = residual(transpose(M), R, Z);
 			ld bound = 1e-7L * (normInf(M) * (normInf(M) * maxAbs(XX) + maxAbs(BB)));
-			if(!(res <= bound)) tg << " !oracle decomp-normal-equations request=" << t;
+			if(!(res <= bound) || !allFinite(XX)) tg << " !oracle decomp-normal-equations request=" << t;
 		}
 		bad = tg.str();
 	}
@@ -625,7 +631,7 @@ std::string runSyev(Dense const& A){
 	Dense QD = matmul(Q, D);
 	Dense Asym(n, n); for(std::size_t i = 0; i != n; ++i) for(std::size_t j = 0; j != n; ++j) Asym(i, j) = j <= i ? A(i, j) : A(j, i);
 	ld tol = 1e-9L * (ld)n * (maxAbs(A) + 1e-300L);
-	if(!(residual(QD, transpose(Q), Asym) <= tol)) out += " !oracle syev-QDQt";
+	if(!(residual(QD, transpose(Q), Asym) <= tol) || !allFinite(Q) || !allFinite(D)) out += " !oracle syev-QDQt";
 	Dense I(n, n); for(std::size_t i = 0; i != n; ++i) I(i, i) = 1;
 	if(!(residual(transpose(Q), Q, I) <= 1e-9L * n)) out += " !oracle syev-orthonormal";
 	for(std::size_t i = 0; i + 1 < n; ++i) if(!(D(i, i) >= D(i + 1, i + 1))){ out += " !oracle syev-order"; break; }
